@@ -1129,12 +1129,33 @@ class Interp:
             return obj("FormatChecker")
         if isinstance(expr, (ast.Constant,)):
             return const_av(expr.value)
+        if isinstance(expr, ast.Dict) and expr.keys and all(isinstance(k, ast.Constant) for k in expr.keys):
+            # a module-level table with literal keys: its key set and (joined) values
+            vals = join_all([self._module_expr(mod, v) for v in expr.values])
+            return AV(["dict"], vals=vals, nonempty=True, const=("keys", frozenset(k.value for k in expr.keys)))
         if isinstance(expr, ast.Dict) or (isinstance(expr, ast.Call) and norm(expr.func) == "dict"):
             return AV(["dict"], vals=AV(["opaque"]))
         if isinstance(expr, ast.Call) and norm(expr.func).endswith("by_relevance"):
             return AV(["func"])
         if isinstance(expr, ast.Attribute):
             return AV(["func"], const=("ext", norm(expr)))
+        return AV(["opaque"])
+
+    def _module_expr(self, mod, expr):
+        """a value written inside a module-level table literal"""
+        if isinstance(expr, ast.Constant):
+            return const_av(expr.value)
+        if isinstance(expr, ast.Tuple):
+            items = tuple(self._module_expr(mod, x) for x in expr.elts)
+            return AV(["tuple"], items=items, elem=join_all(items) if items else BOTTOM, nonempty=bool(items))
+        if isinstance(expr, ast.Attribute) and isinstance(expr.value, ast.Name):
+            r = self.prog.resolve_name(mod, expr.value.id, None)
+            if isinstance(r, tuple) and r[0] in ("module", "ext"):
+                return AV(["func"], const=("ext", "%s.%s" % (r[1], expr.attr)))
+        if isinstance(expr, ast.Name):
+            r = self.prog.resolve_name(mod, expr.id, None)
+            if isinstance(r, Func):
+                return AV(["func"], const=("func", r))
         return AV(["opaque"])
 
     def ev_Tuple(self, e, s):
@@ -1345,7 +1366,9 @@ class Interp:
         for t in obj_types(base):
             m = self.calls.method(t, "__getitem__")
             if m is not None:
-                out.append(self.call_func(m, [base, idx], node=e))
+                rv = self.call_func(m, [base, idx], node=e)
+                # a URIDict whose values are known (the registry holds validator classes): same as its .get()
+                out.append(base.vals if t == "URIDict" and base.vals is not None else rv)
             elif t in ("pmap", "Mapping"):
                 keys = base.const[1] if base.const and base.const[0] == "keys" else None
                 self.need(not (idx.kinds & frozenset(["list", "dict", "set"])), "TypeError", e, "unhashable key", idx.describe())
@@ -1365,6 +1388,12 @@ class Interp:
                 if kr is not None and (cname, kr) in s.present:
                     known = True
                 if cname in idx.keys_of and "str" in idx.kinds:
+                    known = True
+            if base.const and base.const[0] == "keys" and base.kinds <= frozenset(["dict"]):
+                # a table with literal keys, indexed by a truth value (both present) or by one of a known set of strings
+                if idx.kinds <= frozenset(["bool"]) and {True, False} <= set(k for k in base.const[1] if isinstance(k, bool)):
+                    known = True
+                if idx.kinds <= frozenset(["str"]) and idx.strs is not None and idx.strs <= base.const[1]:
                     known = True
             self.need(known, "KeyError", e, "dict lookup with a key not known to be present: %s" % norm(e)[:50], idx.describe())
             out.append(base.vals_av())
